@@ -16,6 +16,14 @@ struct CTok {
     ptr: *mut LlgTokenizer,
     words: Vec<Vec<u8>>,
     eos: u32,
+    /// data the tokenizer's callback points into (V2 tokenizers with a tokenize_fn)
+    _keep: Option<Box<toktrie::TokTrie>>,
+}
+
+/// which tokenizer variant the current job runs on (jobs are sequential): part of every signature
+static VARIANT: std::sync::Mutex<&'static str> = std::sync::Mutex::new("v1");
+fn variant() -> &'static str {
+    *VARIANT.lock().unwrap()
 }
 
 fn mk_words(n: usize, alpha: &[u8], multi: &[&str]) -> Vec<Vec<u8>> {
@@ -54,7 +62,7 @@ fn new_c_tokenizer(words: &[Vec<u8>]) -> Result<CTok, String> {
     if p.is_null() {
         return Err(String::from_utf8_lossy(&err).to_string());
     }
-    Ok(CTok { ptr: p, words: words.to_vec(), eos })
+    Ok(CTok { ptr: p, words: words.to_vec(), eos, _keep: None })
 }
 
 fn rust_env(words: &[Vec<u8>]) -> TokEnv {
@@ -75,14 +83,16 @@ struct Env {
     ctok: CTok,
     factory: ParserFactory,
     n_vocab: usize,
+    /// fast-forward tokens capability on both sides (C: init.ff_tokens_ok)
+    ff: bool,
 }
 
 fn viol(check: &str, class: &str, g: &(String, String), n_vocab: usize, hist: &[u32], what: serde_json::Value) -> Violation {
     Violation {
         check: check.to_string(),
         class: class.to_string(),
-        signature: format!("{}|{}:{}|V{}|{:?}|{}", check, g.0, g.1, n_vocab, hist, what),
-        detail: json!({"kind": "ffi", "grammar_type": g.0, "grammar": g.1, "vocab_size": n_vocab, "history": hist, "what": what}),
+        signature: format!("{}|{}:{}|V{}{}|{:?}|{}", check, g.0, g.1, n_vocab, if variant() == "v1" { String::new() } else { format!("/{}", variant()) }, hist, what),
+        detail: json!({"kind": "ffi", "grammar_type": g.0, "grammar": g.1, "vocab_size": n_vocab, "tokenizer_variant": variant(), "history": hist, "what": what}),
     }
 }
 
@@ -383,6 +393,7 @@ fn explore_grammar(ctx: &Ctx, env: &Env, g: &(String, String), depth: usize) {
     llg_constraint_init_set_defaults(&mut init, env.ctok.ptr);
     init.log_stderr_level = 0;
     init.log_buffer_level = 0;
+    init.ff_tokens_ok = env.ff;
     let ctype = CString::new(g.0.clone()).unwrap();
     let cdata = CString::new(g.1.clone()).unwrap();
     let top = match TopLevelGrammar::from_tagged_str(&g.0, &g.1) {
@@ -421,6 +432,9 @@ fn explore_grammar(ctx: &Ctx, env: &Env, g: &(String, String), depth: usize) {
         let mut rc = Constraint::new(rp);
         let mut rm = Matcher::new(Ok(rp2));
         let mut ok = true;
+        // tokens the matchers have consumed (= the sampled tokens plus, with the ff capability, the
+        // fast-forward tokens the constraint returned after them)
+        let mut mhist: Vec<u32> = vec![];
         for t in fr.hist.iter() {
             // sampling loop: mask then commit
             let mut res = LlgMaskResult { sample_mask: std::ptr::null(), temperature: 0.0, is_stop: false };
@@ -447,11 +461,26 @@ fn explore_grammar(ctx: &Ctx, env: &Env, g: &(String, String), depth: usize) {
                 ok = false;
                 break;
             }
-            let c3 = unsafe { llg_matcher_consume_token(&mut *cm, *t) };
-            let r3 = rm.consume_token(*t);
-            if (c3 == 0) != r3.is_ok() {
-                ctx.violation(viol("matcher_consume_token", "ffi-result-differs", g, env.n_vocab, &fr.hist, json!({"token": t})));
-                ok = false;
+            let to_matcher: Vec<u32> = match &r2 {
+                Ok(r) if env.ff && !r.ff_tokens.is_empty() => {
+                    if r.ff_tokens.len() > 1 {
+                        ctx.count("commits_returning_ff_tokens", 1);
+                    }
+                    r.ff_tokens.clone()
+                }
+                _ => vec![*t],
+            };
+            for mt in to_matcher {
+                let c3 = unsafe { llg_matcher_consume_token(&mut *cm, mt) };
+                let r3 = rm.consume_token(mt);
+                mhist.push(mt);
+                if (c3 == 0) != r3.is_ok() {
+                    ctx.violation(viol("matcher_consume_token", "ffi-result-differs", g, env.n_vocab, &fr.hist, json!({"token": mt})));
+                    ok = false;
+                    break;
+                }
+            }
+            if !ok {
                 break;
             }
             ctx.transitions.fetch_add(1, Ordering::Relaxed);
@@ -460,7 +489,7 @@ fn explore_grammar(ctx: &Ctx, env: &Env, g: &(String, String), depth: usize) {
             visited += 1;
             ctx.states.fetch_add(1, Ordering::Relaxed);
             ctx.validated.fetch_add(1, Ordering::Relaxed);
-            match check_state(ctx, env, g, &fr.hist, cc, &mut rc, cm, &mut rm) {
+            match check_state(ctx, env, g, &mhist, cc, &mut rc, cm, &mut rm) {
                 Ok(succ) => {
                     if fr.hist.len() < depth {
                         for t in succ.into_iter().take(6) {
@@ -817,6 +846,9 @@ fn typed_constructors(ctx: &Ctx, env: &Env, g: &(String, String)) -> Result<(), 
     Ok(())
 }
 
+#[path = "c17b.rs"]
+mod ext;
+
 pub fn run(ctx: &Ctx) -> Coverage {
     ARMED.store(true, Ordering::SeqCst);
     let grammars: Vec<(String, String)> = vec![
@@ -825,6 +857,11 @@ pub fn run(ctx: &Ctx) -> Coverage {
         ("json_schema".into(), json!({"type": "object", "properties": {"a": {"type": "integer", "minimum": 0, "maximum": 9}}, "required": ["a"], "additionalProperties": false}).to_string()),
         ("lark".into(), "start: \"ab\" | \"a\"".into()),
         ("lark".into(), "start: /[ab]*/".into()),
+    ];
+    // grammars with long forced stretches (what a canonical tokenizer turns into forced / fast-forward tokens)
+    let v2_grammars: Vec<(String, String)> = vec![
+        ("lark".into(), "start: \"ab\" X \"cd\" | \"abx\" \"d\"\nX: /x*/".into()),
+        ("json_schema".into(), json!({"type": "object", "properties": {"ab": {"enum": ["xx", "xc"]}, "c": {"const": 12}}, "required": ["ab", "c"], "additionalProperties": false}).to_string()),
     ];
     let sizes: Vec<usize> = if ctx.quick() { vec![31, 32, 33, 64, 65, 100] } else { vec![31, 32, 33, 63, 64, 65, 95, 96, 97, 100, 128, 129] };
     let depth = ctx.tier.pick(4, 6);
@@ -846,9 +883,14 @@ pub fn run(ctx: &Ctx) -> Coverage {
         let caps = InferenceCapabilities { ff_tokens: false, conditional_ff_tokens: false, backtrack: false, fork: false };
         let mut factory = ParserFactory::new(&renv, caps, &llguidance::earley::SlicedBiasComputer::general_slices()).unwrap();
         factory.quiet();
-        let env = Env { ctok, factory, n_vocab: n };
+        let env = Env { ctok, factory, n_vocab: n, ff: false };
         if let Err(v) = text_buffers(ctx, &env, &renv) {
             ctx.violation(v);
+        }
+        if n == 33 || n == 64 {
+            if let Err(v) = ext::misc_entry_points(ctx, &env) {
+                ctx.violation(v);
+            }
         }
         for g in grammars.iter() {
             if let Err(v) = typed_constructors(ctx, &env, g) {
@@ -862,6 +904,58 @@ pub fn run(ctx: &Ctx) -> Coverage {
         let _ = &env.ctok.words;
         unsafe { llg_free_tokenizer(env.ctok.ptr) };
         ctx.count("vocab_sizes", 1);
+        // ---- the same lock-step on a V2 tokenizer: caller-supplied tokenize_fn (canonical: forced tokens),
+        // a second EOS token, fast-forward tokens on; thorough: also custom slices
+        if (n == 33 || n == 65 || (!ctx.quick() && n == 96)) && !ctx.over_budget() && !ctx.has_violations() {
+            let mut words = words.clone();
+            words[n - 2] = b"\xFF<eos2>".to_vec();
+            *VARIANT.lock().unwrap() = "v2-canonical-two-eos-ff";
+            if let Err(v) = ext::tokenizer_v2_contract(ctx, &words) {
+                ctx.violation(v);
+            }
+            let extra = [n as u32 - 2];
+            let custom: [&str; 2] = ["[a-z]+", "[0-9x]{1,3}"];
+            let variants: Vec<Option<&[&str]>> = if ctx.quick() { vec![None] } else { vec![None, Some(&custom)] };
+            for sl in variants {
+                let o = ext::V2Opts { extra_eos: &extra, canonical_cb: true, assumes_string: false, slices: sl, struct_size: std::mem::size_of::<LlgTokenizerInitV2>() };
+                let ctok = match ext::new_c_tokenizer_v2(&words, &o) {
+                    Ok(c) => c,
+                    Err(e) => {
+                        ctx.machinery_error(format!("llg_new_tokenizer_v2 failed: {e}"));
+                        continue;
+                    }
+                };
+                let renv = crate::vocab::VocabSpec { name: "c17v2".into(), tokens: words.clone(), eos: n as u32 - 1, extra_eos: vec![n as u32 - 2], canonical: true }.build();
+                let caps = InferenceCapabilities { ff_tokens: true, conditional_ff_tokens: false, backtrack: false, fork: false };
+                let rslices: Vec<String> = match sl {
+                    None => llguidance::earley::SlicedBiasComputer::general_slices(),
+                    Some(s) => s.iter().map(|x| x.to_string()).collect(),
+                };
+                let mut factory = ParserFactory::new(&renv, caps, &rslices).unwrap();
+                factory.quiet();
+                let env = Env { ctok, factory, n_vocab: n, ff: true };
+                if let Err(v) = text_buffers(ctx, &env, &renv) {
+                    ctx.violation(v);
+                }
+                if let Err(v) = ext::misc_entry_points(ctx, &env) {
+                    ctx.violation(v);
+                }
+                for g in grammars.iter().chain(v2_grammars.iter()) {
+                    explore_grammar(ctx, &env, g, depth);
+                    if n == 33 {
+                        c_opseq(ctx, &env, g, ctx.tier.pick(3, 4));
+                    }
+                }
+                unsafe { llg_free_tokenizer(env.ctok.ptr) };
+                ctx.count("v2_tokenizer_envs", 1);
+            }
+            *VARIANT.lock().unwrap() = "v1";
+        }
+    }
+    if !ctx.has_violations() {
+        *VARIANT.lock().unwrap() = "stop-vocabulary";
+        ext::stop_controller_wrappers(ctx, ctx.tier.pick(3, 4));
+        *VARIANT.lock().unwrap() = "v1";
     }
     ARMED.store(false, Ordering::SeqCst);
     ctx.sample(json!({"grammar": grammars[0], "vocab_size": 100, "dest_lengths": "0,4,...,2*mask+8", "history": "[a, x]"}));
@@ -869,6 +963,6 @@ pub fn run(ctx: &Ctx) -> Coverage {
         ctx.machinery_error("vacuous run: llg_par_compute_mask never called");
     }
     Coverage::StateGraph {
-        rule: format!("extern \"C\" functions called from Rust in lock-step with the Rust Constraint/Matcher over all histories to depth {depth} (<= 6 successors per state) on 5 grammars and vocabulary sizes around multiples of 32; every sequence of 4 (thorough: 5) operations out of 8 on the C matcher wrapper executed blind on fresh objects (vocabulary size 33; thorough also 64); masks, commit results, validation counts, rollback, reset + consume_tokens(history), ff tokens compared; llg_matcher_compute_mask_into with exact and short lengths between canaries; llg_par_compute_mask with every destination length 0,4,..,2*mask+8, with and without callback, destination between canaries, llg_tokenize_bytes(_marker), llg_decode_tokens (all flag combinations), llg_stringify_tokens and the error string of a refused llg_new_tokenizer with every output length from 0 to the needed size + 2 between canaries (count, prefix, NUL, untouched tail); llg_new_constraint_regex|json|lark and llg_validate_grammar at the root; all heap blocks followed by a poisoned red zone (over-read shows as poison words, over-write as a broken zone)"),
+        rule: format!("extern \"C\" functions called from Rust in lock-step with the Rust Constraint/Matcher over all histories to depth {depth} (<= 6 successors per state) on 5 grammars and vocabulary sizes around multiples of 32; every sequence of 4 (thorough: 5) operations out of 8 on the C matcher wrapper executed blind on fresh objects (vocabulary size 33; thorough also 64); masks, commit results, validation counts, rollback, reset + consume_tokens(history), ff tokens compared; llg_matcher_compute_mask_into with exact and short lengths between canaries; llg_par_compute_mask with every destination length 0,4,..,2*mask+8, with and without callback, destination between canaries, llg_tokenize_bytes(_marker), llg_decode_tokens (all flag combinations), llg_stringify_tokens and the error string of a refused llg_new_tokenizer with every output length from 0 to the needed size + 2 between canaries (count, prefix, NUL, untouched tail); llg_new_constraint_regex|json|lark and llg_validate_grammar at the root; the whole lock-step repeated on llg_new_tokenizer_v2 tokenizers (caller tokenize_fn = canonical tokenizer with forced tokens, a second EOS, ff_tokens_ok on both sides so that llg_commit_token returns fast-forward tokens, thorough: custom slices; struct_size prefix copy, refusals); llg_clone_tokenizer; llg_new_constraint on the serialized grammar with temperature= attributes (mask-result temperature and llg_get_temperature along all histories to depth 4); llg_matcher_get_error (null while healthy, stable pointer, Rust's text); llg_flush_logs, llg_get_version; stop-controller wrappers (llg_new/clone/free_stop_controller, llg_stop_commit_token) against the Rust StopController on every token sequence of length <= 3 (thorough 4) over C18's 17-token vocabulary for 11 configurations (text, length, NUL, stopped flag); all heap blocks followed by a poisoned red zone (over-read shows as poison words, over-write as a broken zone)"),
     }
 }
